@@ -132,6 +132,34 @@ def gen_families(seed):
     return fs, fam2, tot2, fam3, tot3
 
 
+def sync_jobs(items, thorough, max_exec=4000):
+    """Some simulators answer synchronously (their step/get_data never yield to the loop, like
+    the in-process simulators of the test-suite) while the others are gated: a synchronous
+    simulator runs through its steps before later processes have even started, which no
+    gated schedule does.  quick: all synchronous, exactly one synchronous, exactly one gated;
+    thorough: every subset."""
+    jobs = []
+    for name, scen in items:
+        sids = [s["sid"] for s in scen["sims"]]
+        if thorough:
+            variants = [list(c) for r in range(1, len(sids)) for c in itertools.combinations(sids, r)]
+            variants.append("all")
+            cfgs = base_configs()
+        else:
+            variants = ["all"] + [[s] for s in sids]
+            if len(sids) > 2:
+                variants += [[t for t in sids if t != s] for s in sids]
+            cfgs = [dict(lazy=l, cache=True) for l in (True, False)]
+        for cfg in cfgs:
+            for v in variants:
+                jobs.append(dict(name=name, scen=scen, cfg=dict(cfg, sync=v), budget=0,
+                                 max_exec=max_exec))
+                if thorough and v != "all":
+                    jobs.append(dict(name=name, scen=scen, cfg=dict(cfg, sync=v), budget=1,
+                                     max_exec=max_exec))
+    return jobs
+
+
 def quick_jobs(seed=0):
     jobs = []
     for name, scen in scenarios.CATALOGUE.items():
@@ -141,11 +169,15 @@ def quick_jobs(seed=0):
                     continue
                 jobs.append(dict(name=name, scen=scen, cfg=cfg, budget=b,
                                  max_exec=6000))
+    jobs += sync_jobs(scenarios.CATALOGUE.items(), thorough=False)
     # a slice of the generated family (the first scenarios of the thorough tier's window)
     fs, fam2, _, fam3, _ = gen_families(seed)
-    for i, scen in enumerate(fam2[:int(os.environ.get("VERIF_QGEN2", "160"))]):
+    q2 = fam2[:int(os.environ.get("VERIF_QGEN2", "160"))]
+    for i, scen in enumerate(q2):
         for cfg in base_configs():
             jobs.append(dict(name=f"gen2-{fs}-{i}", scen=scen, cfg=cfg, budget=0, max_exec=4000))
+    jobs += sync_jobs([(f"gen2-{fs}-{i}", sc) for i, sc in enumerate(q2)], thorough=False,
+                      max_exec=2000)
     for i, scen in enumerate(fam3[:int(os.environ.get("VERIF_QGEN3", "80"))]):
         for cfg in base_configs():
             jobs.append(dict(name=f"gen3-{fs}-{i}", scen=scen, cfg=cfg, budget=0, max_exec=3000))
@@ -183,7 +215,10 @@ def thorough_jobs(seed=0):
         for cfg in base_configs():
             for b in (0, 1, 2):
                 jobs.append(dict(name=name, scen=scen, cfg=cfg, budget=b, max_exec=20000))
+    jobs += sync_jobs(scenarios.CATALOGUE.items(), thorough=True)
     fs, fam2, tot2, fam3, tot3 = gen_families(seed)
+    jobs += sync_jobs([(f"gen2-{fs}-{i}", sc) for i, sc in enumerate(fam2)], thorough=False,
+                      max_exec=2000)
     for i, scen in enumerate(fam2):
         for cfg in base_configs():
             for b in (0, 1):
